@@ -358,6 +358,24 @@ func (e *Engine) externKey(bc *BoundContract) (string, error) {
 	if len(parts) != 2 {
 		return "", fmt.Errorf("%s:%d: extern function must be qualified: %s", fc.File, fc.Line, fc.Name)
 	}
+	// an import alias of the contract file ("//@ import gosdp \"github.com/...\"") takes precedence
+	for _, cf := range e.Files {
+		if cf.Path != fc.File && cf.PkgDir != fc.PkgDir {
+			continue
+		}
+		for _, im := range cf.Imports {
+			f := strings.Fields(im)
+			if len(f) == 2 && f[0] == parts[0] {
+				if p := e.AllPkgs[strings.Trim(f[1], "\"")]; p != nil {
+					if sp := e.Prog.Package(p.Types); sp != nil {
+						if fn := sp.Func(parts[1]); fn != nil {
+							return fn.String(), nil
+						}
+					}
+				}
+			}
+		}
+	}
 	for _, p := range e.AllPkgs {
 		if p.Name == parts[0] {
 			if sp := e.Prog.Package(p.Types); sp != nil {
